@@ -14,8 +14,16 @@ Executable small-step model of the completion protocol in `modules/modules.go`, 
   status writes are excluded while a check holds the lock,
 * `stop()` (new `stopComplete`, `stopCompleted=false`, status `Stopping`), `stopAllTasks` (`ctrl.Set; flag.Set;
   cancel; startCtrlFn; select{stopComplete|timeout}; status=Offline; report`), `startCtrlFn` (nil branch / goroutine
-  whose deferred part does `UnSet; check` and only then sends the result), `start()` (status `Starting`, fresh
-  context, `stopFlag.UnSet`), status `Online` (after the start routine's goroutine has sent its result).
+  whose deferred part does `UnSet; check` and only then sends the result), `start()` (status `Starting`, then the
+  three context steps in source order: cancel the current context, create a fresh one, `stopFlag.UnSet`), status
+  `Online` (after the start routine's goroutine has sent its result) **or back to `Offline` when the start routine
+  failed** (error or panic; nothing else is reset: the context of the failed attempt stays live, its work keeps
+  running), `prep()` (status `Dead → Preparing → Offline` around the prep routine).
+* contexts: `m.Ctx` is replaced only by `start()`; the model numbers the contexts of a module (`gen`: 0 = the one
+  made by `initNewModule`, +1 per `start()`), keeps the cancellation state of the current one (`ctx`) and the list of
+  earlier ones that were replaced while still live (`oldLive`). Work functions and later observations name the
+  generation of the context they hold (workers and microtasks read `m.Ctx` when their function is called, a task
+  holds a child of the `m.Ctx` of the time it was created or last finished — any generation up to the current one).
 
 Symmetric threads are represented by counter abstraction: the state holds the *number* of threads at each program
 location, so any number of work items / finishing goroutines is covered. Flags and program counters are `Nat`-coded.
@@ -23,7 +31,8 @@ location, so any number of work items / finishing goroutines is covered. Flags a
 Ghost (proof-only) components, never read by a guard of the implementation's own steps:
 * the split of each counter into `a` (items that were counted when the stop flag was last set, or counted while the
   flag is clear) and `b` (items counted while the flag is set); the Go counter is `a + b`,
-* `tmo` (this cycle's wait ended by timeout).
+* `tmo` (this cycle's wait ended by timeout),
+* `gen`, `oldLive` (identity and cancellation state of replaced contexts).
 -/
 namespace PB.StopProto
 open PB.Gen.StopProto
@@ -66,17 +75,47 @@ structure St where
   swTop0 : Nat     -- service workers whose function returned while the stop flag was clear, at the head of their
                    --   restart loop (they may still read `IsStopping() = false` and run the function again)
   swTop1 : Nat     -- … whose function returned while the stop flag was set (their `IsStopping()` read is true)
+  gen : Nat        -- number of the module's current context `m.Ctx` (0 = made by `initNewModule`, +1 per `start()`)
+  oldLive : List Nat -- earlier contexts that were replaced by `start()` while not cancelled
 deriving DecidableEq, Repr
 
-/-- A registered, prepared module (`initNewModule`: `stopCompleted = true`, `stopComplete = nil`). -/
+/-- A registered module (`initNewModule`: status `Dead`, a live context, `stopCompleted = true`,
+    `stopComplete = nil`). -/
 def init : St :=
-  { status := statusOffline, flag := 0, ctrl := 0, ctx := 0, completed := 1, closed := 0, dbl := 0,
+  { status := statusDead, flag := 0, ctrl := 0, ctx := 0, completed := 1, closed := 0, dbl := 0,
     aW := 0, bW := 0, aT := 0, bT := 0, aM := 0, bM := 0,
     k0 := 0, kf := 0, k1 := 0, k2 := 0, k3 := 0, k4 := 0, k5 := 0, k6 := 0, k7 := 0, kd := 0, lk := 0,
-    spc := 0, fnpc := 0, tmo := 0, swTop0 := 0, swTop1 := 0 }
+    spc := 0, fnpc := 0, tmo := 0, swTop0 := 0, swTop1 := 0, gen := 0, oldLive := [] }
+
+/-- … after `prep()` (no work started meanwhile). -/
+def prepped : St := { init with status := statusOffline }
+
+/-- is context number `g` of this module cancelled? -/
+def St.genCancelled (s : St) (g : Nat) : Bool :=
+  if g = s.gen then s.ctx == 1 else !(s.oldLive.contains g)
+
+/-- the three steps of `start()` on the stop management, `modules.go` ("reset stop management") -/
+inductive StartOp
+  | cancelCur   -- `if m.cancelCtx != nil { m.cancelCtx() }` (never nil: set by `initNewModule`)
+  | renew       -- `m.Ctx, m.cancelCtx = context.WithCancel(context.Background())`
+  | unsetFlag   -- `m.stopFlag.UnSet()`
+deriving DecidableEq, Repr
+
+def applyStartOp (s : St) : StartOp → St
+  | .cancelCur => { s with ctx := 1 }
+  | .renew => { s with oldLive := if s.ctx = 0 then s.gen :: s.oldLive else s.oldLive, gen := s.gen + 1, ctx := 0 }
+  | .unsetFlag => { s with flag := 0 }
+
+/-- … in the order of the source (pinned to the regenerated `startSeq` by `PB.C05.gen_matches_model`) -/
+def startOps : List StartOp := [.cancelCur, .renew, .unsetFlag]
+
+def startCtx (ops : List StartOp) (s : St) : St := ops.foldl applyStartOp s
 
 inductive Act
+  | prepBegin                  -- prep(): status Preparing (under m.Lock)
+  | prepDone                   -- prep(): status Offline (under m.Lock), after the prep routine's result was received
   | startBegin                 -- start(): status Starting, cancel old ctx, new ctx, stopFlag.UnSet   (under m.Lock)
+  | startFail                  -- start(): the start routine failed (error / panic): status Offline (under m.Lock)
   | ctrlSet                    -- startCtrlFn, fn ≠ nil: ctrlFuncRunning.Set, goroutine started
   | ctrlUnsetNil               -- startCtrlFn, fn = nil: ctrlFuncRunning.UnSet, then check (stop only)
   | fnEnter (cancelled : Bool) -- the control function body begins and observes the module context
@@ -88,7 +127,8 @@ inductive Act
   | sWake | sTimeout
   | sOffline | sReport         -- status Offline (under m.Lock); the manager received the report
   | inc (k : Kind)
-  | workEnter (cancelled : Bool) -- a work function begins and observes the context it was handed
+  | workEnter (g : Nat) (cancelled : Bool) -- a work function begins and observes the context (number `g`) it was handed
+  | ctxObs (g : Nat) (cancelled : Bool)    -- a running work function looks at the context (number `g`) it holds
   | gate (open_ : Bool)        -- OnlineSoon() as read by NewTask / TriggerEvent / isActive (management flags aside)
   | dec (k : Kind) (old : Bool)
   | cFast (ok : Bool) | cLock
@@ -105,12 +145,21 @@ def St.t (s : St) : Nat := s.aT + s.bT
 def St.m (s : St) : Nat := s.aM + s.bM
 
 def step (s : St) : Act → Option St
+  | .prepBegin =>
+    if s.status = statusDead ∧ s.lk = 0 then some { s with status := statusPreparing } else none
+  | .prepDone =>
+    if s.status = statusPreparing ∧ (s.fnpc = 0 ∨ s.fnpc = 3) ∧ s.lk = 0 then
+      some { s with status := statusOffline } else none
   | .startBegin =>
     if s.status = statusOffline ∧ (s.spc = 0 ∨ s.spc = 8) ∧ (s.fnpc = 0 ∨ s.fnpc = 3) ∧ s.lk = 0 then
-      some { s with status := statusStarting, ctx := 0, flag := 0, spc := 0, fnpc := 0 } else none
+      some (startCtx startOps { s with status := statusStarting, spc := 0, fnpc := 0 }) else none
+  | .startFail =>
+    if s.status = statusStarting ∧ s.spc = 0 ∧ s.fnpc = 3 ∧ s.lk = 0 then
+      some { s with status := statusOffline } else none
   | .ctrlSet =>
     if s.spc = 4 then some { s with ctrl := 1, spc := 5, fnpc := 1 }
-    else if s.status = statusStarting ∧ s.spc = 0 ∧ s.fnpc = 0 then some { s with ctrl := 1, fnpc := 1 }
+    else if (s.status = statusStarting ∨ s.status = statusPreparing) ∧ s.spc = 0 ∧ s.fnpc = 0 then
+      some { s with ctrl := 1, fnpc := 1 }
     else none
   | .ctrlUnsetNil =>
     if s.spc = 4 then some { s with ctrl := 0, spc := 5, fnpc := 3, k0 := s.k0 + 1 } else none
@@ -141,7 +190,8 @@ def step (s : St) : Act → Option St
   | .inc .w => if s.flag = 1 then some { s with bW := s.bW + 1 } else some { s with aW := s.aW + 1 }
   | .inc .t => if s.flag = 1 then some { s with bT := s.bT + 1 } else some { s with aT := s.aT + 1 }
   | .inc .m => if s.flag = 1 then some { s with bM := s.bM + 1 } else some { s with aM := s.aM + 1 }
-  | .workEnter c => if (c = true ↔ s.ctx = 1) then some s else none
+  | .workEnter g c => if g ≤ s.gen ∧ (c = true ↔ s.genCancelled g = true) then some s else none
+  | .ctxObs g c => if g ≤ s.gen ∧ (c = true ↔ s.genCancelled g = true) then some s else none
   | .gate o => if (o = true ↔ s.flag = 0) then some s else none
   | .dec .w true => if 0 < s.aW then some { s with aW := s.aW - 1, k0 := s.k0 + 1 } else none
   | .dec .w false => if 0 < s.bW then some { s with bW := s.bW - 1, k0 := s.k0 + 1 } else none
